@@ -163,6 +163,23 @@ let no_prop (_ : n list) (_ : n list) : n list option = None
 let show (r : cval res) : string =
   match r with Ok c -> "ok " ^ dump c | Err _ -> "err" | Fuel -> "fuel"
 
+(* whole configurations: the harness also calls the gun and rps factories of every pool twice *)
+let show_full (r : cval res) : string =
+  match r with
+  | Ok (CStruct (CSlice pools :: _) as c) -> "ok " ^ dump c ^ " f=" ^ String.make (4 * List.length pools) '1'
+  | Ok c -> "ok " ^ dump c ^ " f="
+  | _ -> show r
+
+let split_factories (obs : string) : string * string =
+  let n = String.length obs in
+  let rec find i =
+    if i < 0 then None
+    else if i + 3 <= n && String.sub obs i 3 = " f=" then Some i
+    else find (i - 1) in
+  match find (n - 3) with
+  | Some i -> (String.sub obs 0 i, String.sub obs (i + 3) (n - i - 3))
+  | None -> (obs, "")
+
 (* navigation in written trees *)
 let rec value_at (p : step list) (v : value) : value option =
   match p, v with
@@ -234,7 +251,9 @@ let predict (c : string) (obs : string) : string * string * bool =
   | None -> ("nocomp", "BAD:unknown-component", false)
   | Some (schema, dflt) ->
       let dec env prop t = decode_and_validate env prop orc orcq gen_registry model_factory_lazy (fuel_for t) schema dflt t in
-      let pred = show (dec env prop tree) in
+      let shw = if kind = "full" then show_full else show in
+      let pred = shw (dec env prop tree) in
+      let (obs_d, obs_f) = split_factories obs in
       let is_ok = starts_with "ok " obs in
       let mutk = (match String.index_opt mut ':' with Some i -> String.sub mut 0 i | None -> mut) in
       let mutarg = (match String.index_opt mut ':' with Some i -> String.sub mut (i + 1) (String.length mut - i - 1) | None -> "") in
@@ -243,7 +262,7 @@ let predict (c : string) (obs : string) : string * string * bool =
         | "base" ->
             if not is_ok then ("BAD:valid-config-rejected", true)
             else begin
-              let oc = parse_dump (String.sub obs 3 (String.length obs - 3)) in
+              let oc = parse_dump (String.sub obs_d 3 (String.length obs_d - 3)) in
               if not (defaults_kept_b (nat_of_int 40) schema dflt oc tree) then ("BAD:default-not-kept", true)
               else if kind = "cli" then
                 (match observed_discard oc with
@@ -295,12 +314,15 @@ let predict (c : string) (obs : string) : string * string * bool =
             (match replace_at path lit tree with
              | Some t' ->
                  let want = show (dec no_env no_prop t') in
-                 if obs = want then ("ok", true) else ("BAD:placeholder-not-substituted expected " ^ (if String.length want > 60 then String.sub want 0 60 else want), true)
+                 if obs_d = want then ("ok", true) else ("BAD:placeholder-not-substituted expected " ^ (if String.length want > 60 then String.sub want 0 60 else want), true)
              | None -> ("BAD:bad-path", false))
         | "phe" -> if obs = "err" then ("ok", true) else ("BAD:unresolved-placeholder-accepted", true)
         | "case" | "free" -> ("ok", false)
         | _ -> ("BAD:unknown-mutation", false)
       in
+      let v = if v = "ok" && is_ok && (String.contains obs_f '0' || String.contains obs_f 'p')
+              then "BAD:factory-call-failed-after-accepted-config" else v in
+      let nt = nt || v <> "ok" in
       let v = if !oracle_miss && v = "ok" then "BAD:oracle-miss" else v in
       (pred, v, nt)
 
